@@ -27,6 +27,53 @@ class Check(Prop):
     BUDGET = {"quick": 2500, "thorough": 40000}
     WALL = {"quick": 150, "thorough": 1500}
 
+    def explicit(self):
+        """Seed-independent: overload pairs (rest-bound of one type, fixed arity of another) called with one and two arguments too
+        many, and with the right count; single declarations with every count from 0 to arity + 2."""
+        lit = cfgmod.lit
+        for ta, tb in (("Int", "String"), ("String", "Int"), ("Symbol", "Float"), ("Float", "Symbol")):
+            for k in (1, 2, 3):
+                for order in (0, 1):
+                    rest_d = {"name": "m0", "args": [{"types": [ta], "key": None, "default": False, "rest": True}], "ret": ["Int"], "block": []}
+                    fixed_d = {"name": "m0", "args": [{"types": [tb], "key": None, "default": False, "rest": False} for _ in range(k)], "ret": ["String"], "block": []}
+                    ims = [rest_d, fixed_d] if order == 0 else [fixed_d, rest_d]
+                    cfg = {"classes": [{"frame": "Builtin", "class": "Alpha", "extends": [], "imethods": ims,
+                                        "cmethods": [{"name": "new", "args": [], "ret": ["Alpha"], "block": []}]}]}
+                    lines, probes = [], []
+                    for n, extra in ((k + 1, tb), (k + 2, tb), (k, tb), (k + 1, "Symbol" if ta != "Symbol" else "Int"), (0, tb)):
+                        i = len(probes)
+                        lines.append("v%d = Alpha.new" % i)
+                        vals = [tb] * min(n, k) + [extra] * max(0, n - k)
+                        lines.append("r%d = v%d.m0(%s)" % (i, i, ", ".join(lit(cfgmod.cls_of(t)) for t in vals)))
+                        lines.append("dbtp r%d" % i)
+                        probes.append({"row": len(lines) - 1, "R": ["Alpha"], "m": "m0", "pos": [[cfgmod.cls_of(t)] for t in vals], "kws": {}, "static": False,
+                                       "var": "r%d" % i, "dbtp_row": len(lines)})
+                    yield {"cfg": cfg, "lines": lines, "probes": probes, "wrap": None}
+
+        # a rest-bound declaration that rejects for another reason (missing keyword, wrong trailing type) before a fixed-arity one
+        def A(types, **kw):
+            d = {"types": types, "key": None, "default": False, "rest": False}
+            d.update(kw)
+            return d
+        shapes = [
+            ([A(["Untyped"], rest=True), A(["Int"], key="tag")], [A(["Int"])], [["Integer", "Integer"], ["Integer", "Integer", "Integer"], ["Integer"]]),
+            ([A(["Untyped"], rest=True), A(["String"])], [A(["Int"])], [["Integer", "Integer", "Integer"], ["Integer", "Integer"], ["Integer"]]),
+            ([A(["Untyped"], rest=True), A(["String"])], [A(["Int"]), A(["Int"])], [["Integer", "Integer", "Integer"], ["Integer", "Integer"]]),
+        ]
+        for first, second, calls in shapes:
+            ims = [{"name": "m0", "args": first, "ret": ["Int"], "block": []}, {"name": "m0", "args": second, "ret": ["String"], "block": []}]
+            cfg = {"classes": [{"frame": "Builtin", "class": "Alpha", "extends": [], "imethods": ims,
+                                "cmethods": [{"name": "new", "args": [], "ret": ["Alpha"], "block": []}]}]}
+            lines, probes = [], []
+            for vals in calls:
+                i = len(probes)
+                lines.append("v%d = Alpha.new" % i)
+                lines.append("r%d = v%d.m0(%s)" % (i, i, ", ".join(lit(c) for c in vals)))
+                lines.append("dbtp r%d" % i)
+                probes.append({"row": len(lines) - 1, "R": ["Alpha"], "m": "m0", "pos": [[c] for c in vals], "kws": {}, "static": False,
+                               "var": "r%d" % i, "dbtp_row": len(lines)})
+            yield {"cfg": cfg, "lines": lines, "probes": probes, "wrap": None}
+
     def strategy(self):
         return st.one_of(callprog.call_program(), callprog.call_program(), callprog.call_program(untyped_ret=True))
 
